@@ -13,6 +13,7 @@ import (
 	"strings"
 	"time"
 
+	"go.flow.arcalot.io/pluginsdk/mcrt"
 	"go.flow.arcalot.io/pluginsdk/schema"
 	"verif/engine/lib"
 	"verif/engine/ux"
@@ -343,6 +344,75 @@ func (c *checker) strings() {
 	}
 }
 
+// firstUse: two (three) threads make the first use of one fresh definition at once - every pair over {parse,
+// format short, format long} - under the cooperative scheduler, all schedules within 2 preemptions; every execution
+// is scanned for happens-before races on the definition's lazily built caches, and each result must equal the
+// result on a definition used by one thread only. A number computed while another thread is still filling the
+// caches is a wrong number.
+func (c *checker) firstUse() {
+	ms := c.d.sortedMults()
+	n := int64(3661)
+	if len(ms) > 0 && ms[0] < math.MaxInt64/7 {
+		n = ms[0]*5 + 3
+	}
+	alone := c.d.build()
+	text := alone.FormatShortInt(n)
+	type op struct {
+		name string
+		f    func(u *schema.UnitsDefinition) string
+	}
+	ops := []op{
+		{"ParseInt", func(u *schema.UnitsDefinition) string { v, err := u.ParseInt(text); return fmt.Sprint(v, err) }},
+		{"FormatShortInt", func(u *schema.UnitsDefinition) string { return u.FormatShortInt(n) }},
+		{"FormatLongInt", func(u *schema.UnitsDefinition) string { return u.FormatLongInt(n) }},
+		{"ParseFloat", func(u *schema.UnitsDefinition) string { v, err := u.ParseFloat(text); return fmt.Sprint(v, err) }},
+	}
+	want := make([]string, len(ops))
+	for i, o := range ops {
+		want[i] = o.f(c.d.build())
+	}
+	for i := range ops {
+		for j := i; j < len(ops); j++ {
+			pair := []int{i, j}
+			got := make([]string, 2)
+			e := &mcrt.Explorer{MaxPreempt: 2, MaxDelay: 2, MaxSteps: 1 << 20, Races: true, Body: func() {
+				u := c.d.build()
+				var wg mcrt.WaitGroup
+				for t, oi := range pair {
+					t, oi := t, oi
+					wg.Add(1)
+					mcrt.GoNamed(ops[oi].name, func() { defer wg.Done(); got[t] = ops[oi].f(u) })
+				}
+				wg.Wait()
+			}, Check: func(r *mcrt.Result) bool {
+				c.res.Evaluations++
+				rp := replay{Op: "firstuse", Str: ops[i].name + "|" + ops[j].name}
+				switch r.Status {
+				case mcrt.StPanic:
+					c.fail(fmt.Sprintf("panic in %s: %s", lib.PanicSite(r.PanicStack), lib.PanicClass(r.PanicValue)), "concurrent first use panicked: "+r.PanicValue, rp)
+				case mcrt.StComplete:
+					for t, oi := range pair {
+						if got[t] != want[oi] {
+							c.fail("concurrent first use of a units definition returns another result than a single caller gets", fmt.Sprintf("%s -> %s, alone -> %s (schedule %v)", ops[oi].name, got[t], want[oi], r.Choices), rp)
+						}
+					}
+				default:
+					c.fail("concurrent first use of a units definition does not complete: "+r.Status.String(), fmt.Sprint(r.Blocked), rp)
+				}
+				for _, rc := range r.Races {
+					a, b := rc.First, rc.Then
+					if a > b {
+						a, b = b, a
+					}
+					c.fail("data race on first use of a units definition: "+a+" <-> "+b, fmt.Sprintf("%s || %s: %s", ops[i].name, ops[j].name, rc.String()), rp)
+				}
+				return true
+			}}
+			e.All()
+		}
+	}
+}
+
 func floatValues() []float64 {
 	var v []float64
 	for k := 0; k <= 4000; k++ {
@@ -364,6 +434,8 @@ func run(tier string, raw json.RawMessage, from int, deadline time.Time) ux.Resu
 	c := &checker{d: d, di: b.Def, u: d.build(), res: &res}
 	ux.Progress(0)
 	switch b.Kind {
+	case "firstuse":
+		c.firstUse()
 	case "ints":
 		for _, n := range intValues(d, b.Lo, b.Hi) {
 			c.checkInt(n)
@@ -402,7 +474,7 @@ func main() {
 					}
 					out = append(out, batch{Def: di, Kind: "ints", Lo: lo, Hi: h})
 				}
-				out = append(out, batch{Def: di, Kind: "floats"}, batch{Def: di, Kind: "strings"})
+				out = append(out, batch{Def: di, Kind: "floats"}, batch{Def: di, Kind: "strings"}, batch{Def: di, Kind: "firstuse"})
 			}
 			return out
 		},
@@ -420,6 +492,8 @@ func main() {
 				c.checkInt(r.Int)
 			case "float":
 				c.checkFloat(r.F)
+			case "firstuse":
+				c.firstUse()
 			case "parse":
 				// re-run the whole string family of this definition (cheap) and keep what concerns the string
 				c.strings()
@@ -431,7 +505,7 @@ func main() {
 			}
 			return res.Findings
 		},
-		Rule: "5 built-in unit sets + 12 generated definitions (multipliers over {2,10,60,1000}; names that are prefixes of each other; names with regexp metacharacters) x {every integer in [0,200000] (generated definitions: [0,20000] in the quick tier), powers of ten +-1 up to 10^18, multiplier boundaries, 2^63-1; floats k/8 for k<=4000 and k*10^e; every well-formed string of 1-3 strictly descending components with counts from {0,1,9,10,59,60,61,100} in 4 name/spacing variants; 14 near misses incl. 64-bit overflow}; every case distinct",
+		Rule: "5 built-in unit sets + 12 generated definitions (multipliers over {2,10,60,1000}; names that are prefixes of each other; names with regexp metacharacters) x {every integer in [0,200000] (generated definitions: [0,20000] in the quick tier), powers of ten +-1 up to 10^18, multiplier boundaries, 2^63-1; floats k/8 for k<=4000 and k*10^e; every well-formed string of 1-3 strictly descending components with counts from {0,1,9,10,59,60,61,100} in 4 name/spacing variants; 14 near misses incl. 64-bit overflow}; every case distinct. First use: for every definition, every pair over {ParseInt, FormatShortInt, FormatLongInt, ParseFloat} issued by two threads on one fresh definition under the cooperative scheduler (sync shim + access events on schema/), all schedules with <= 2 preemptions: vector-clock race scan and results equal to a single caller's",
 		Assumptions: []string{
 			"ambiguous inputs are outside the alphabet: bare numbers without a unit name, decimal counts, negative quantities",
 			"float tolerance 1e-6 absolute + 1e-9 relative (the formatter prints 6 decimals)",
